@@ -43,6 +43,7 @@ func derPrelude(quant bool) string {
 (assert (forall ((t Int) (b g_SeqI)) (! (and (>= (g_SeqI_len (g_der t b)) (+ (g_SeqI_len b) 2)) (<= (g_SeqI_len (g_der t b)) (+ (g_SeqI_len b) 6))) :pattern ((g_der t b)))))
 (assert (forall ((t Int) (b g_SeqI)) (! (=> (and (g_isbytes b) (<= 0 t) (<= t 255)) (and (g_isbytes (g_der t b)) (= (g_SeqI_idx (g_der t b) 0) t))) :pattern ((g_der t b)))))
 (assert (forall ((t Int) (b g_SeqI)) (! (= (g_SeqI_len (g_der t b)) (+ 1 (g_SeqI_len (g_dertail b)))) :pattern ((g_der t b)))))
+(assert (forall ((t Int) (b g_SeqI)) (! (=> (g_isbytes (g_der t b)) (g_isbytes b)) :pattern ((g_der t b)))))
 (assert (forall ((t Int) (b g_SeqI) (i Int)) (! (=> (and (<= 1 i) (<= i (g_SeqI_len (g_dertail b)))) (= (g_SeqI_idx (g_der t b) i) (g_SeqI_idx (g_dertail b) (- i 1)))) :pattern ((g_SeqI_idx (g_der t b) i)))))
 (assert (forall ((t Int) (b g_SeqI) (r g_SeqI)) (! (=> (and (<= 0 t) (<= t 255) (not (= (mod t 32) 31)) (g_isbytes b))
    (and (g_parse_ok (g_SeqI_app (g_der t b) r)) (= (g_parse_tag (g_SeqI_app (g_der t b) r)) t) (= (g_parse_body (g_SeqI_app (g_der t b) r)) b) (= (g_parse_rest (g_SeqI_app (g_der t b) r)) r)))
